@@ -322,8 +322,39 @@ func genAmount(t *rapid.T) (uint64, string) {
 			v = maxMoney - 1
 		}
 		return v, "pattern"
+	case 8: // the stored number (the amount itself in the plain format, its compressed form otherwise) sits on
+		// a CompactSize boundary: 252/253, 2^16, 2^32
+		b := rapid.SampledFrom([]uint64{252, 253, 254, 0xffff, 0x10000, 0x10001, 0xffffffff, 0x100000000, 0x100000001}).Draw(t, "boundary")
+		if rapid.Bool().Draw(t, "ascompressed") {
+			if v := refDecompressAmount(b); v <= maxMoney && refCompressAmount(v) == b {
+				return v, "vlen-boundary"
+			}
+		}
+		return b, "vlen-boundary"
 	}
 	return rapid.Uint64Range(0, maxMoney).Draw(t, "amount"), "uniform"
+}
+
+// refDecompressAmount: the inverse, from the same specification (compressor.cpp DecompressAmount).
+func refDecompressAmount(x uint64) uint64 {
+	if x == 0 {
+		return 0
+	}
+	x--
+	e := x % 10
+	x /= 10
+	var n uint64
+	if e < 9 {
+		d := x%9 + 1
+		x /= 9
+		n = x*10 + d
+	} else {
+		n = x + 1
+	}
+	for ; e > 0; e-- {
+		n *= 10
+	}
+	return n
 }
 
 type amountCase struct {
